@@ -54,7 +54,8 @@ type Conf struct {
 	Preemption   bool       `json:"preemption"`
 	QuotaPreempt bool       `json:"quotaPreempt"`
 	NodeSort     string     `json:"nodeSort"`
-	Valid        bool       `json:"valid"` // what the generator expects validation to say
+	MixedCase    bool       `json:"mixedCase"` // the YAML spells queue names with a capital first letter (queue names are case insensitive)
+	Valid        bool       `json:"valid"`     // what the generator expects validation to say
 }
 
 func resStr(m map[string]int64) map[string]string {
@@ -142,6 +143,9 @@ func (c *Conf) YAML() []byte {
 	var build func(path, name string) configs.QueueConfig
 	build = func(path, name string) configs.QueueConfig {
 		qc := configs.QueueConfig{Name: name}
+		if c.MixedCase && name != "root" {
+			qc.Name = strings.ToUpper(name[:1]) + name[1:]
+		}
 		if q, ok := byPath[path]; ok {
 			qc.Parent = q.Parent
 			qc.Resources = configs.Resources{Max: nilIfEmpty(resStr(q.Max)), Guaranteed: nilIfEmpty(resStr(q.Guar))}
